@@ -145,7 +145,7 @@ class FakeSession:
 
     def request(self, method: str, url: str, **kw: Any) -> FakeCM:
         i = len(self.calls)
-        self.calls.append((method, url, dict(kw.get("headers") or {})))
+        self.calls.append((method, url, dict(kw.get("headers") or {}), kw.get("data")))
         out = self.script[min(i, len(self.script) - 1)]
         if out.get("stage") == "call":
             raise make_exc(out["exc"], out.get("st"))
@@ -233,7 +233,9 @@ def run_recipe(ctx: Ctx, recipe: Dict[str, Any], cid: str) -> Case:
     ops = list(recipe["ops"])
     script = (ops + [ops[-1]] * PAD)[:PAD]
     url = render_url(u)
-    lines = [f"req {kind.split('+')[0]}",
+    method = recipe.get("method", "GET")
+    reqbody = recipe.get("body")
+    lines = [f"req {kind.split('+')[0]} {method} {'none' if reqbody is None else tok_str(reqbody)}",
              f"url {u['kind']} {u['scheme']} {tok_str(u['a'])} {tok_str(u.get('d', ''))} {tok_str(u.get('z', ''))} "
              f"{u.get('port') or '-'} {tok_str(u['path'])}",
              f"own {fmt_headers(own or {})}", f"caller {fmt_headers(caller)}"]
@@ -269,7 +271,7 @@ def run_recipe(ctx: Ctx, recipe: Dict[str, Any], cid: str) -> Case:
             kw = {"http_headers": own} if own is not None else {}
             req = A.AiohttpSessionRequester(session, with_sleep=(kind == "session+sleep"), **kw)  # type: ignore[arg-type]
         try:
-            res = _loop().run_until_complete(req.async_http_request("GET", url, caller, None))
+            res = _loop().run_until_complete(req.async_http_request(method, url, caller, reqbody))
             if isinstance(res, tuple) and len(res) == 3 and isinstance(res[0], int) and isinstance(res[2], str):
                 hd = {str(k): str(v) for k, v in sorted(dict(res[1]).items())}
                 rl = f"res ret {res[0]} {fmt_headers(hd)} {tok_str(res[2])}"
@@ -285,8 +287,9 @@ def run_recipe(ctx: Ctx, recipe: Dict[str, Any], cid: str) -> Case:
     finally:
         A.ClientSession = orig  # type: ignore[misc]
         set_logging("off")
-    for (_m, cu, ch) in session.calls:
-        lines.append(f"call {tok_str(cu)} {fmt_headers(ch)}")
+    for (cm, cu, ch, cd) in session.calls:
+        lines.append(f"call {tok_str(cu)} {fmt_headers(ch)} {cm} {'none' if cd is None else tok_str(cd) if isinstance(cd, str) else '?' + type(cd).__name__}")
+    tags.add(f"method:{method}")
     lines.append(rl)
     tags.add(f"attempts:{len(session.calls)}")
     nontrivial = any("exc" in o for o in ops[:1]) or u["kind"] == "zoned"
@@ -317,6 +320,33 @@ URLS = [
 ]
 
 
+ZONE_CHARS = "abcdefghijklmnopqrstuvwxyzABCDEFGHIJKLMNOPQRSTUVWXYZ0123456789._~-"
+ADDRS = ["fe80::1", "fe80::1", "FE80::AB:1", "fe80::21c:42ff:fe00:8", "fe80::", "FE80:0:0:0:202:B3FF:FE1E:8329", "::1", "fd00::7"]
+ZONES = ["eth0", "eth0.100", "br-lan", "wlan0_1", "en0.2", "1", "10", "Ethernet_2", "tun~0", "a"]
+
+
+def rand_url(rng) -> Dict[str, Any]:
+    """a URL of the grammar; zones over [A-Za-z0-9._~-]+ (interface names such as eth0.100, br-lan), both
+    delimiters, random addresses / ports / paths"""
+    r = rng.random()
+    u: Dict[str, Any] = {"scheme": rng.choice(["http", "http", "https"])}
+    if r < 0.6:
+        zone = rng.choice(ZONES) if rng.random() < 0.5 else "".join(rng.choice(ZONE_CHARS) for _ in range(rng.randrange(1, 9)))
+        u.update(kind="zoned", a=rng.choice(ADDRS), d=rng.choice(["%25", "%25", "%"]), z=zone)
+    elif r < 0.75:
+        u.update(kind="ipv6", a=rng.choice(ADDRS))
+    else:
+        u.update(kind="plain", a=rng.choice(["192.168.1.1", "10.0.0.138", "router.local", "Router.Local", "nas-1.lan"]))
+    if rng.random() < 0.6:
+        u["port"] = str(rng.choice([80, 8000, 8080, 49152, 1900, 5000, 65535, rng.randrange(1, 65536)]))
+    u["path"] = rng.choice(["/", "/desc.xml", "/ctl/x", "/root%20desc", "/evt%sub", "/a/b?q=1%25", "/upnp/control/WANIPConn1"])
+    return u
+
+
+def pick_url(rng) -> Dict[str, Any]:
+    return URLS[rng.randrange(len(URLS))] if rng.random() < 0.4 else rand_url(rng)
+
+
 def netloc(u: Dict[str, Any]) -> str:
     from urllib.parse import urlparse
 
@@ -341,8 +371,14 @@ def mk_out(rng, name: str, i: int, stage: Optional[str] = None) -> Dict[str, Any
         hdrs = {"Content-Type": ctype, "X-N": str(rng.randrange(100))}
         if rng.random() < 0.3:
             hdrs["X-Friendly-Name"] = rng.choice(["Größe", "客厅", "é"])
-        return {"status": [200, 200, 404, 500, 204][(i + rng.randrange(5)) % 5], "headers": hdrs,
-                "body": f"<b n='{i}-{rng.randrange(1000)}'>é ü ß</b>"}
+        core = f"<b n='{i}-{rng.randrange(1000)}'>é ü ß</b>"
+        # white space, CR LF and a BOM at the edges: what is returned must be the decoded body, unaltered
+        body = rng.choice(["", "", "", "\n", "\r\n  ", " ", "\ufeff", "\t"]) + core + rng.choice(["", "", "\n", "\r\n\r\n", "  ", "\n\n"])
+        if rng.random() < 0.03:
+            body = rng.choice(["", " ", "\r\n"])
+        if "utf-8" not in ctype and ctype != "text/xml":
+            body = body.replace("\ufeff", "")
+        return {"status": [200, 200, 404, 500, 204][(i + rng.randrange(5)) % 5], "headers": hdrs, "body": body}
     st = stage or STAGES[rng.randrange(4)]
     if name == "UnicodeDecodeError" and stage is None and rng.random() < 0.7:
         st = "text"
@@ -360,6 +396,9 @@ def _work(args):
     return [run_recipe(ctx, rec, cid) for cid, rec in chunk]
 
 
+SOAP = '<?xml version="1.0"?><s:Envelope xmlns:s="http://schemas.xmlsoap.org/soap/envelope/"><s:Body><u:SetVolume>é</u:SetVolume></s:Body></s:Envelope>'
+REQUESTS = [("GET", None), ("GET", None), ("POST", SOAP), ("POST", ""), ("SUBSCRIBE", None), ("UNSUBSCRIBE", None),
+            ("NOTIFY", "<e:propertyset/>"), ("HEAD", None)]
 LOGMODES = ["off", "traffic", "traffic", "module", "both"]
 
 
@@ -371,8 +410,9 @@ def generate(ctx: Ctx) -> List[Case]:
 
     def add(kind, u, own, caller, ops, prefix="g"):
         nonlocal i
+        m, b = rng.choice(REQUESTS)
         cases.append(run_recipe(ctx, {"kind": kind, "url": u, "own": own, "caller": caller, "ops": ops,
-                                      "log": rng.choice(LOGMODES)}, f"{prefix}{i}"))
+                                      "log": rng.choice(LOGMODES), "method": m, "body": b}, f"{prefix}{i}"))
         i += 1
 
     # corpus: design-time probes
@@ -386,6 +426,12 @@ def generate(ctx: Ctx) -> List[Case]:
                 for kind in ("plain", "session", "session+sleep"):
                     first = rng.choice(["ok", "ok", "ServerDisconnectedError", "ClientResponseError"])
                     add(kind, u, own, caller, [mk_out(rng, first, 0), mk_out(rng, "ok", 1)], "h")
+    # generated zoned / plain URLs x header variants, both requesters (Host part)
+    for _ in range(1500 if (ctx.thorough or search) else 250):
+        u = rand_url(rng)
+        kind = rng.choice(["plain", "session", "session+sleep"])
+        first = rng.choice(["ok", "ok", "ServerDisconnectedError"])
+        add(kind, u, rng.choice(OWN_VARIANTS), rng.choice(caller_variants(u)), [mk_out(rng, first, 0), mk_out(rng, "ok", 1)], "z")
     # logging x charset: every logger configuration x declared/undeclared charsets x requester kind
     for logmode in ["off", "traffic", "module", "both"]:
         for ctype in ["text/xml", 'text/xml; charset="utf-8"', "text/xml; charset=ISO-8859-1", "text/xml; charset=utf-16",
@@ -406,7 +452,7 @@ def generate(ctx: Ctx) -> List[Case]:
     depth = 3 if (ctx.thorough or search) else 2
     for n in range(1, depth + 1):
         for seq in itertools.product(alpha, repeat=n):
-            u = URLS[rng.randrange(len(URLS))]
+            u = pick_url(rng)
             caller = rng.choice(caller_variants(u))
             kind = "session+sleep" if rng.random() < 0.2 else "session"
             add(kind, u, rng.choice(OWN_VARIANTS), caller, [mk_out(rng, nm, j) for j, nm in enumerate(seq)], f"e{n}_")
@@ -416,9 +462,10 @@ def generate(ctx: Ctx) -> List[Case]:
 
         jobs = []
         for seq in itertools.product(alpha, repeat=4):
-            u = URLS[rng.randrange(len(URLS))]
+            u = pick_url(rng)
             jobs.append((f"e4_{i}", {"kind": "session", "url": u, "own": None, "caller": rng.choice(caller_variants(u)),
-                                     "ops": [mk_out(rng, nm, j) for j, nm in enumerate(seq)], "log": rng.choice(LOGMODES)}))
+                                     "ops": [mk_out(rng, nm, j) for j, nm in enumerate(seq)], "log": rng.choice(LOGMODES),
+                                     "method": rng.choice(REQUESTS)[0], "body": rng.choice([None, SOAP])}))
             i += 1
         n = 12
         lite = Ctx(ctx.prop, ctx.tier, ctx.seed, ctx.work, ctx.deadline)
@@ -434,7 +481,7 @@ def generate(ctx: Ctx) -> List[Case]:
     for _ in range(n_random):
         n = rng.randrange(4, 7) if ctx.thorough else rng.randrange(3, 5)
         seq = [rng.choice(conn) if rng.random() < 0.6 else rng.choice(alpha) for _ in range(n)]
-        u = URLS[rng.randrange(len(URLS))]
+        u = pick_url(rng)
         kind = rng.choice(["session", "session", "session+sleep", "plain"])
         add(kind, u, rng.choice(OWN_VARIANTS), rng.choice(caller_variants(u)), [mk_out(rng, nm, j) for j, nm in enumerate(seq)], "r")
     return cases
@@ -448,6 +495,17 @@ CORPUS: List[Dict[str, Any]] = [
     # F17a: GENA SUBSCRIBE (event_handler.py supplies HOST: netloc), plain requester
     {"kind": "plain", "url": _Z, "own": None, "caller": {"HOST": "[fe80::1%25eth0]:80", "NT": "upnp:event"},
      "ops": [{"status": 200, "headers": {}, "body": "ok"}]},
+    # zone ids that are ordinary interface names (VLAN, bridge): eth0.100, br-lan, wlan0_1, en0.2 (audit C17-1)
+    *[{"kind": k, "url": {"kind": "zoned", "scheme": "http", "a": "fe80::1", "d": d, "z": z, "port": prt, "path": "/ctl"},
+       "own": None, "caller": {"Host": f"[fe80::1{d}{z}]" + (f":{prt}" if prt else "")},
+       "ops": [{"status": 200, "headers": {}, "body": "ok"}]}
+      for k, d, z, prt in [("session", "%25", "eth0.100", "80"), ("plain", "%25", "br-lan", None),
+                           ("session", "%25", "wlan0_1", "8000"), ("plain", "%", "en0.2", "8000")]],
+    # the decoded body is returned unaltered: leading/trailing white space, CR LF, BOM (audit C17-2)
+    {"kind": "session", "url": URLS[0], "own": None, "caller": None,
+     "ops": [{"status": 200, "headers": {"Content-Type": "text/xml"}, "body": "\n<root/>\r\n\n"}]},
+    {"kind": "plain", "url": URLS[0], "own": None, "caller": None,
+     "ops": [{"status": 200, "headers": {"Content-Type": 'text/xml; charset="utf-8"'}, "body": "\ufeff <root/> "}]},
     # three disconnects then success: the success is never reached
     {"kind": "session", "url": URLS[0], "own": None, "caller": None,
      "ops": [{"exc": "ServerDisconnectedError", "stage": "enter"}] * 3 + [{"status": 200, "headers": {}, "body": "late"}]},
